@@ -21,7 +21,7 @@ var plans = map[string]plan{
 		Rule:     "case = (requested type, input bytes) run through all 5 skipping facilities (7 configurations); inputs: bounded-exhaustive strings over a 15-symbol grammar alphabet, mutated valid encodings (truncate/substitute/size-window/splice/insert/delete), huge size fields, nesting 1..70 per container kind. Non-trivial iff the oracle rejects the input or accepts it with nesting >= 2; distinct by (type, bytes).",
 		Required: []string{"oracle-accept judged", "oracle-reject judged", "nesting>=65 cases"},
 		Quick:    []job{{"plain", 8}},
-		Thorough: []job{{"plain", 16}, {"race", 4}},
+		Thorough: []job{{"plain", 16}, {"race", 4}, {"go126", 4}, {"fuzz", 3}},
 	},
 	"C02": {
 		Level:    "exploration",
@@ -35,7 +35,7 @@ var plans = map[string]plan{
 		Rule:     "case = input bytes run through every buffer-based decoding entry point (23 + Binary.Skip/BytesSkipDecoder for several requested type bytes) at two guard-page placements (input ends at / starts after a PROT_NONE page). Inputs: all strings of length <= 2, grammar-alphabet strings, mutations/truncations/boundary substitutions of valid encodings of every shape (values, Base/BaseResp/exception structs, messages, unknown-field sequences, TTHeader frames), huge size fields. Non-trivial iff length >= 1 and (mutated valid encoding or alphabet string of length >= 3); distinct by bytes.",
 		Required: []string{"guarded decoder calls", "decoder successes", "decoder errors", "full truncation sweeps"},
 		Quick:    []job{{"plain", 8}},
-		Thorough: []job{{"plain", 16}, {"asan", 8}, {"race", 4}},
+		Thorough: []job{{"plain", 16}, {"asan", 8}, {"race", 4}, {"go126", 4}, {"fuzz", 3}},
 	},
 	"C04": {
 		Level:    "fault_enumeration",
@@ -56,7 +56,7 @@ var plans = map[string]plan{
 		Rule:     "case = history that retains every slice handed out by Next/Peek (resp. every Malloc region) until Release/Flush while later requests force 0..6 growths, over the io.Reader-backed and bytes-backed reader/writer with caller buffers of power-of-two and other capacities; SkipDecoder runs retaining up to 200 results over a fragmenting source; ReaderSkipDecoder growth sequences. Configuration A (poisoning pool shim: recycled buffers are poisoned and quarantined, foreign/double frees and writes after recycle are events) and configuration B (real pool plus a co-tenant that between any two operations takes buffers from every relevant size class, checks their address ranges against all live slices and caller memory, and overwrites them). Non-trivial iff a slice is retained across a request > 4096 (growth) or a caller-owned buffer is involved; distinct by (configuration, ops, source/initial-slice class).",
 		Required: []string{"reader histories retaining a slice across a growth", "caller-owned reader buffers", "caller-owned writer targets", "co-tenant buffers scribbled", "pool frees (shim)", "skip-decoder results retained", "reader-skip-decoder growth sequences", "growth ladders"},
 		Quick:    []job{{"plain", 8}, {"poison", 8}},
-		Thorough: []job{{"plain", 16}, {"poison", 16}},
+		Thorough: []job{{"plain", 16}, {"poison", 16}, {"go126", 4}},
 	},
 	"C01": {
 		Level:    "exploration",
@@ -77,7 +77,7 @@ var plans = map[string]plan{
 		Rule:     "case = hostile frame bytes decoded by Decode over a bytes reader at two guard-page placements, DecodeFromBytes, and Decode over a fragmenting source, each compared with an independent decoder (reject reasons: magic, declared size outside 2..65536, protocol id, transform count, incomplete section, unknown info id) and, on success, field by field incl. HeaderLen/PayloadLen/maps and bytes consumed. Exhaustive: all 65536 header-size fields x 3 bodies, all flags, all magic half-words, all protocol/info id bytes, all transform counts, string lengths overshooting the info block by 1..4 with and without payload; random: section orders/repeats/interleaved padding with truncations and byte perturbations. Non-trivial: every case (the magic check alone decides only the all-magic stage); distinct by frame bytes.",
 		Required: []string{"frames accepted", "frames rejected", "size fields >= 0x4000 tried", "overshooting string lengths", "full truncation sweeps"},
 		Quick:    []job{{"plain", 8}},
-		Thorough: []job{{"plain", 16}, {"asan", 4}},
+		Thorough: []job{{"plain", 16}, {"asan", 4}, {"fuzz", 3}},
 	},
 	"C07": {
 		Level:    "exploration",
@@ -119,7 +119,7 @@ var plans = map[string]plan{
 		Rule:     "case = run of strings/binaries decoded by thrift.Binary (lengths over every span-allocator class: 0, <128, every power of two +-1 up to 128 KiB, larger; runs of 200..800 values wrapping the 1 MiB spans) with the span cache off and on; every returned []byte is appended to and overwritten, then the input buffer is overwritten: input, siblings and snapshots must stay intact, and returned slices (incl. spare capacity) must not overlap the input; stream reader: values of a first message retained across Release, Recycle, pool reuse by a co-tenant and the decoding of a second message through a recycled BufferReader; decoded Base / ApplicationException / unknown-field trees after their input is overwritten. Non-trivial iff length >= 1; distinct by (lengths, reader kind, span-cache setting).",
 		Required: []string{"buffer-decoded values attacked", "stream-decoded values attacked", "structs attacked", "bytes decoded in runs"},
 		Quick:    []job{{"plain", 8}},
-		Thorough: []job{{"plain", 16}, {"race", 4}},
+		Thorough: []job{{"plain", 16}, {"race", 4}, {"go126", 4}},
 	},
 	"C17": {
 		Level:    "exploration",
@@ -147,15 +147,15 @@ var plans = map[string]plan{
 		Rule:     "case = (conversion variant: the compiled go1.21+ file and the legacy pre-go1.21 file copied from /repo at check time, input shape): every length 0..300 and classes up to 1 MiB, byte slices with spare capacity 0/1/48, substrings at several offsets of a larger string backed by a mutable heap block with canary bytes; checks content, length, shared data pointer (a write through the slice is visible through the string), cap(StringToBinary(s)) == len(s), and that append(StringToBinary(s), ...) leaves the enclosing memory unchanged; nil / empty / zero-length-subslice inputs must not panic and must yield empty results. Non-trivial iff len >= 1 or the nil/empty distinction; distinct by (variant, shape).",
 		Required: []string{"conversions checked", "empty/nil inputs checked"},
 		Quick:    []job{{"plain", 2}, {"race", 2}},
-		Thorough: []job{{"plain", 4}, {"race", 2}, {"asan", 2}},
+		Thorough: []job{{"plain", 4}, {"race", 2}, {"asan", 2}, {"go126", 2}},
 	},
 	"C14": {
-		Level:    "exploration",
-		Rule:     "case = one execution: G goroutines (8..64) at GOMAXPROCS 2..16, each running hundreds of create/use/release cycles of every pooled type (BufferWriter/BufferReader over DefaultWriter/DefaultReader with yielding sinks and sources, the three skip decoders incl. values > 4 KiB, TTHeader bytes- and stream-backed, Binary.ReadString/ReadBinary with the span allocator on, FastMarshal/FastUnmarshal, MarshalFastMsg) with payload bytes that encode (goroutine, iteration, offset), plus Get/Item/Len on freshly loaded shared maps whose first lookups happen concurrently. Oracles: the Go race detector (reports parsed from the log, de-duplicated by stack pair) and each goroutine's comparison with its own expected bytes. The monitor keeps only goroutine-local state until the join, so it adds no synchronisation. Builds: -race, -race with the yield-injecting pool shim (thorough), plain at 10x iterations (contamination only). Non-trivial iff pooled objects were observed in >= 2 goroutines in that execution; distinct by (build, G, P, repetition, seed).",
-		Required: []string{"pooled objects used by >= 2 goroutines", "executions", "cycles writer+reader", "cycles skip-decoders", "cycles ttheader", "cycles binary+fastcodec", "cycles shared-maps"},
+		Level:       "exploration",
+		Rule:        "case = one execution: G goroutines (8..64) at GOMAXPROCS 2..16, each running hundreds of create/use/release cycles of every pooled type (BufferWriter/BufferReader over DefaultWriter/DefaultReader with yielding sinks and sources, the three skip decoders incl. values > 4 KiB, TTHeader bytes- and stream-backed, Binary.ReadString/ReadBinary with the span allocator on, FastMarshal/FastUnmarshal, MarshalFastMsg) with payload bytes that encode (goroutine, iteration, offset), plus Get/Item/Len on freshly loaded shared maps whose first lookups happen concurrently. Oracles: the Go race detector (reports parsed from the log, de-duplicated by stack pair) and each goroutine's comparison with its own expected bytes. The monitor keeps only goroutine-local state until the join, so it adds no synchronisation. Builds: -race, -race with the yield-injecting pool shim (thorough), plain at 10x iterations (contamination only). Non-trivial iff pooled objects were observed in >= 2 goroutines in that execution; distinct by (build, G, P, repetition, seed).",
+		Required:    []string{"pooled objects used by >= 2 goroutines", "executions", "cycles writer+reader", "cycles skip-decoders", "cycles ttheader", "cycles binary+fastcodec", "cycles shared-maps"},
 		Assumptions: []string{"absence of a race report says nothing about interleavings that were not produced"},
-		Quick:    []job{{"race", 4}, {"plain", 2}},
-		Thorough: []job{{"race", 12}, {"yield", 6}, {"plain", 6}},
+		Quick:       []job{{"race", 4}, {"plain", 2}},
+		Thorough:    []job{{"race", 12}, {"yield", 6}, {"plain", 6}, {"go126-race", 6}},
 	},
 }
 
